@@ -60,6 +60,10 @@ Definition av_ok (av : allowed) (v : value) : bool :=
 (* check_allowed_values *)
 Definition check_av (av : allowed) (v : value) : value := if av_ok av v then v else VNull.
 
+(* allowed values of a collection: per item (check_allowed_values_of_items) / pinned commit: on the whole list *)
+Definition coll_av (collitem : bool) (av : allowed) (vs : list value) : value :=
+  if collitem then (if forallb (av_ok av) vs then VList vs else VNull) else check_av av (VList vs).
+
 (* ---------------- item definitions ---------------- *)
 Inductive idef :=
 | ISimple (p : prim) (av : allowed)
@@ -107,14 +111,12 @@ Fixpoint items_loop (ev : list (N * value) -> option (list (N * value))) (vs : l
    Generic algorithm, with two switches that name the two places where the code at the pinned
    commit and the property part ways:
      refav    — a referenced type applies its own allowed values            (pinned commit: false)
-     collitem — allowed values of a collection are tested per item           (code: false, the whole
-                list is tested, which no test of the language accepts)
+     collitem — allowed values of a collection are tested per item           (pinned commit: false, the
+                whole list was tested, which no test of the language accepts)
    ============================================================================================ *)
 Section Generic.
 Variables (refav collitem : bool).
 
-Definition coll_av (av : allowed) (vs : list value) : value :=
-  if collitem then (if forallb (av_ok av) vs then VList vs else VNull) else check_av av (VList vs).
 
 Fixpoint gcheck (f : nat) (D : defs) (T : idef) (v : value) {struct f} : value :=
   match f with O => VNull | S f' =>
@@ -132,17 +134,17 @@ Fixpoint gcheck (f : nat) (D : defs) (T : idef) (v : value) {struct f} : value :
       end
   | ICollSimple p av =>
       match v with
-      | VList vs => if forallb (is_atom p) vs then coll_av av vs else VNull
+      | VList vs => if forallb (is_atom p) vs then coll_av collitem av vs else VNull
       | _ => VNull
       end
   | ICollRef n av =>
       match v with
-      | VList vs => match dlookup n D with Some T' => coll_av av (map (gcheck f' D T') vs) | None => VNull end
+      | VList vs => match dlookup n D with Some T' => coll_av collitem av (map (gcheck f' D T') vs) | None => VNull end
       | _ => VNull
       end
   | ICollComp fs av =>
       match v with
-      | VList vs => match items_loop (comp_loop (gcheck f' D) fs) vs with Some vs' => coll_av av vs' | None => VNull end
+      | VList vs => match items_loop (comp_loop (gcheck f' D) fs) vs with Some vs' => coll_av collitem av vs' | None => VNull end
       | _ => VNull
       end
   end end.
@@ -204,7 +206,7 @@ Fixpoint wf_idef (T : idef) : bool :=
 
 Definition wf_defs (D : defs) : bool := forallb (fun e => wf_idef (snd e)) D.
 
-(* the class of the known finding: a collection type that carries allowed values *)
+(* no collection type carries allowed values: where the pinned commit agreed with the Spec *)
 Fixpoint clean (T : idef) : bool :=
   match T with
   | ISimple _ _ | IRef _ _ => true
@@ -259,9 +261,10 @@ Fixpoint loop_dt_duration (vs : list value) : option (list value) :=
 Fixpoint loop_ym_duration (vs : list value) : option (list value) :=
   match vs with [] => Some [] | x :: r => match x with VAtom SYmd _ => option_map (cons x) (loop_ym_duration r) | _ => None end end.
 
-Definition coll_with (loop : list value -> option (list value)) (av : allowed) (v : value) : value :=
+(* collitem = false: the pinned commit, where the allowed values were tested on the whole list *)
+Definition coll_with (loop : list value -> option (list value)) (collitem : bool) (av : allowed) (v : value) : value :=
   match v with
-  | VList vs => match loop vs with Some vs' => check_av av (VList vs') | None => VNull end
+  | VList vs => match loop vs with Some vs' => coll_av collitem av vs' | None => VNull end
   | _ => VNull
   end.
 Definition coll_string := coll_with loop_string.
@@ -273,33 +276,35 @@ Definition coll_date_time := coll_with loop_date_time.
 Definition coll_dt_duration := coll_with loop_dt_duration.
 Definition coll_ym_duration := coll_with loop_ym_duration.
 
-Definition coll_copy (p : prim) : allowed -> value -> value :=
+Definition coll_copy (p : prim) : bool -> allowed -> value -> value :=
   match p with
   | PString => coll_string | PNumber => coll_number | PBoolean => coll_boolean | PDate => coll_date
   | PTime => coll_time | PDateTime => coll_date_time | PDtd => coll_dt_duration | PYmd => coll_ym_duration end.
 
 (* build_item_definition_evaluator and the closures of the four remaining variants.
-   [fixed] = false is the pinned commit, where build_referenced_type_evaluator does not receive av_evaluator. *)
-Fixpoint eval_item_gen (fixed : bool) (f : nat) (D : defs) (T : idef) (v : value) {struct f} : value :=
+   refav = false: the pinned commit, where build_referenced_type_evaluator did not receive av_evaluator;
+   collitem = false: the pinned commit, where the collection evaluators called check_allowed_values on the whole list
+   (now check_allowed_values_of_items). *)
+Fixpoint eval_item_gen (refav collitem : bool) (f : nat) (D : defs) (T : idef) (v : value) {struct f} : value :=
   match f with O => VNull | S f' =>
   match T with
   | ISimple p av => simple_copy p av v
   | IRef n av =>                                            (* build_referenced_type_evaluator *)
       match dlookup n D with
-      | Some T' => if fixed then check_av av (eval_item_gen fixed f' D T' v) else eval_item_gen fixed f' D T' v
+      | Some T' => if refav then check_av av (eval_item_gen refav collitem f' D T' v) else eval_item_gen refav collitem f' D T' v
       | None => VNull
       end
   | IComp fs av =>                                          (* build_component_type_evaluator *)
       match v with
-      | VCtx es => match comp_loop (eval_item_gen fixed f' D) fs es with Some es' => check_av av (VCtx es') | None => VNull end
+      | VCtx es => match comp_loop (eval_item_gen refav collitem f' D) fs es with Some es' => check_av av (VCtx es') | None => VNull end
       | _ => VNull
       end
-  | ICollSimple p av => coll_copy p av v
+  | ICollSimple p av => coll_copy p collitem av v
   | ICollRef n av =>                                        (* build_collection_of_referenced_type_evaluator *)
       match v with
       | VList vs =>
           match dlookup n D with
-          | Some T' => check_av av (VList (map (eval_item_gen fixed f' D T') vs))
+          | Some T' => coll_av collitem av (map (eval_item_gen refav collitem f' D T') vs)
           | None => VNull
           end
       | _ => VNull
@@ -307,16 +312,16 @@ Fixpoint eval_item_gen (fixed : bool) (f : nat) (D : defs) (T : idef) (v : value
   | ICollComp fs av =>                                      (* build_collection_of_component_type_evaluator *)
       match v with
       | VList vs =>
-          match items_loop (comp_loop (eval_item_gen fixed f' D) fs) vs with
-          | Some vs' => check_av av (VList vs')
+          match items_loop (comp_loop (eval_item_gen refav collitem f' D) fs) vs with
+          | Some vs' => coll_av collitem av vs'
           | None => VNull
           end
       | _ => VNull
       end
   end end.
 
-Definition eval_item := eval_item_gen true.
-Definition eval_item_orig := eval_item_gen false.
+Definition eval_item := eval_item_gen true true.
+Definition eval_item_orig := eval_item_gen false false.
 
 (* ---------------- build_variable_evaluator (mod.rs): the typeRef of an input data variable ---------------- *)
 Inductive tref := RNone | RPrim (p : prim) | RNamed (n : N).
@@ -336,7 +341,7 @@ Definition var_copy (p : prim) : value -> value :=
   | PTime => var_time | PDateTime => var_date_time | PDtd => var_dt_duration | PYmd => var_ym_duration end.
 
 (* the value bound to the input variable `name`, given the whole input context *)
-Definition var_eval_gen (fixed : bool) (f : nat) (D : defs) (name : N) (r : tref) (input : value) : value :=
+Definition var_eval_gen (refav collitem : bool) (f : nat) (D : defs) (name : N) (r : tref) (input : value) : value :=
   match input with
   | VCtx es =>
       match vlookup name es with
@@ -344,13 +349,14 @@ Definition var_eval_gen (fixed : bool) (f : nat) (D : defs) (name : N) (r : tref
           match r with
           | RNone => x
           | RPrim p => var_copy p x
-          | RNamed n => match dlookup n D with Some T => eval_item_gen fixed f D T x | None => VNull end
+          | RNamed n => match dlookup n D with Some T => eval_item_gen refav collitem f D T x | None => VNull end
           end
       | None => VNull
       end
   | _ => VNull
   end.
-Definition var_eval := var_eval_gen true.
+Definition var_eval := var_eval_gen true true.
+Definition var_eval_orig := var_eval_gen false false.
 
 (* Spec of the input side *)
 Definition input_spec (f : nat) (D : defs) (name : N) (r : tref) (input : value) : value :=
